@@ -457,6 +457,17 @@ func extractC01() *lean {
 	}
 	l.def("verifierFields", "List String", leanStrList(fields), fields)
 
+	// vcr/store.go StoreCredential: is the signature check a TOP-LEVEL statement of the function (no branch in front of it)?
+	uncond := false
+	if fd := funcDecl(storeF, "StoreCredential"); fd != nil {
+		for _, st := range fd.Body.List {
+			if is, ok := st.(*ast.IfStmt); ok && is.Init != nil && strings.Contains(c01Stmt(is.Init), "c.verifier.VerifySignature(credential,validAt)") {
+				uncond = true
+			}
+		}
+	}
+	l.def("storeCredentialVerifiesSignatureUnconditionally", "Bool", map[bool]string{true: "true", false: "false"}[uncond], uncond)
+
 	// trust.Config: the return sequences, and whether RemoveTrust drops EVERY entry equal to the issuer
 	// (a loop over the type's list that keeps the entries `!= issuer`), not just one occurrence
 	_, tr := parseFile("vcr/trust/trust.go")
